@@ -13,6 +13,7 @@ type Trace struct {
 	Labels  []string
 	Handler []uint64 // message ids in handler-call order
 	States  []uint64 // state ids after each transition
+	SendTr  []uint64 // ids of the messages whose send transition was made, in order
 	Pend    []uint64 // pendingRecvBytes after each change
 	Err     bool     // an error was delivered to ErrorChan by SendError
 	Notes   []string // linearisation remarks
@@ -117,8 +118,10 @@ func Translate(s *Session, evs []Event, maxRbuf uint64) Trace {
 				out = append(out, lbl{s: "Handle", isState: true, from: from})
 			} else if queued[mi.Id] {
 				delete(queued, mi.Id)
+				tr.SendTr = append(tr.SendTr, mi.Id)
 				out = append(out, lbl{s: "SendQueuedTransition", isState: true, from: from})
 			} else {
+				tr.SendTr = append(tr.SendTr, mi.Id)
 				out = append(out, lbl{s: "SendDeq", isState: true, from: from})
 				firstDeq = 0
 				batchOpen = true
@@ -345,6 +348,6 @@ func nlist(xs []uint64) string {
 // (sm index, server?, rqcap, labels, (handler ids, states, pend log, wire ids, err))
 func CoqCase(smIdx int, server bool, rqcap int, tr Trace, wire []uint64) string {
 	lb := "[" + strings.Join(tr.Labels, "; ") + "]"
-	return fmt.Sprintf("(%d%%nat, %v, %d, %s, (%s, %s, %s, %s, %v))",
-		smIdx, server, rqcap, lb, nlist(tr.Handler), nlist(tr.States), nlist(tr.Pend), nlist(wire), tr.Err)
+	return fmt.Sprintf("(%d%%nat, %v, %d, %s, (%s, %s, %s, %s, %s, %v))",
+		smIdx, server, rqcap, lb, nlist(tr.Handler), nlist(tr.States), nlist(tr.Pend), nlist(wire), nlist(tr.SendTr), tr.Err)
 }
